@@ -1,4 +1,5 @@
 import NeumannModel.RelTx.CapLemmas
+import NeumannModel.RelTx.CapCount
 /-
   C09 — sixth module of property theorems (ONLY theorems and their non-vacuity examples): statements that
   fail PART-WAY through a row, and the rollback after them (`CapModel.lean`).
@@ -215,6 +216,63 @@ set_option maxRecDepth 8000 in
 /-- non-vacuity: on the same table a plain `update` moving row 0 to the new key 3 is refused -/
 example : (updateC 2 (runC 2 c0 setup) 0 (.idEq 0) [(0, 3)]).2 = .tooLarge := by decide
 
+/-- EVERY state, every cap, every `tx_update` that is refused at the cap — no hypothesis on the indexes: it was
+    refused at its FIRST matched row (once a row has moved, the new keys exist and `btree_index_add` of an existing
+    key is unconditional), so it has changed the content of no row; the index entries of every row other than that
+    first one, the index configuration and every other table are as before.  (This is what the harness oracle
+    `failed_statement_changed_rows` demands of a refused statement.) -/
+theorem refused_update_changes_no_row (cap : Nat) (s : State) (A t : Nat) (cond : Cond) (upd : List (Nat × Val))
+    (T : Table) (hT : s.tables t = some T) (hfail : (txUpdateC cap s A t cond upd).2 = .tooLarge) :
+    let s' := (txUpdateC cap s A t cond upd).1
+    ∃ (i0 : Nat) (rest : List Nat) (X : Table), matching T cond = i0 :: rest ∧ s'.tables t = some X ∧
+      X.rows = T.rows ∧ X.ncols = T.ncols ∧ X.hashOn = T.hashOn ∧ X.btreeOn = T.btreeOn ∧
+      (∀ e : Entry, e.2.2 ≠ i0 → ((e ∈ X.hashE ↔ e ∈ T.hashE) ∧ (e ∈ X.btreeE ↔ e ∈ T.btreeE))) ∧
+      (∀ k, k ≠ t → s'.tables k = s.tables k) := by
+  intro s'
+  obtain ⟨i0, rest, r, _, _, hm, hr, _, hstate, hflag⟩ := txUpdateC_refused hT hfail
+  have hT1 : (lockAll s A t (i0 :: rest)).tables t = some T := by rw [lockAll_tables]; exact hT
+  rw [updateRowC_eq hT1 hr] at hstate hflag
+  dsimp only at hstate hflag
+  have hbt : (btMoves cap (otherKeys (lockAll s A t (i0 :: rest)) t) upd r.vals i0 T.btreeOn T.btreeE).2 = false := by
+    have hfl := hflag
+    unfold updateRowT at hfl
+    dsimp only at hfl
+    split at hfl
+    · cases hfl
+    · rename_i h; simpa using h
+  have hX : (updateRowT cap (otherKeys (lockAll s A t (i0 :: rest)) t) upd T i0 r).1 =
+      { T with hashE := hashMoves upd r.vals i0 T.hashOn T.hashE
+               btreeE := (btMoves cap (otherKeys (lockAll s A t (i0 :: rest)) t) upd r.vals i0 T.btreeOn T.btreeE).1 } := by
+    unfold updateRowT
+    dsimp only
+    rw [hbt]
+    rfl
+  have hs' : s' = _ := hstate
+  refine ⟨i0, rest, _, hm, by rw [hs', setTable_tables, if_pos rfl], ?_, ?_, ?_, ?_, ?_, ?_⟩
+  · rw [hX]
+  · rw [hX]
+  · rw [hX]
+  · rw [hX]
+  · intro e he
+    rw [hX]
+    exact ⟨hashMoves_other_ids e he _ _, btMoves_other_ids e he _ _⟩
+  · intro k hk
+    rw [hs', setTable_tables, if_neg hk, recordUndo_tables, lockAll_tables]
+
+set_option maxRecDepth 8000 in
+/-- non-vacuity: on `tab3` under `max_btree_entries = 2` the update `c0 = 1 -> c0 := 3` matches rows 0 and 1 and is
+    refused (at row 0) -/
+example : (runC 2 c0 (setup ++ [.begin])).tables 0 = some tab3 ∧ matching tab3 (.eq 0 1) = [0, 1] ∧
+    (txUpdateC 2 (runC 2 c0 (setup ++ [.begin])) 3 0 (.eq 0 1) [(0, 3)]).2 = .tooLarge := by decide
+
+/-- `tx_delete` has no step that the cap can refuse (it only removes index entries): under any cap it is the
+    atomic statement of `Model.lean`, for which `failed_statement_changes_nothing` and `rollback_restores` hold. -/
+theorem tx_delete_is_never_refused (s : State) (tx t : Nat) (cond : Cond) :
+    (txDeleteC s tx t cond).2 ≠ .tooLarge ∧ (txDeleteC s tx t cond).1 = (txDelete s tx t cond).1 ∧
+    (txDeleteC s tx t cond).2 = .res (txDelete s tx t cond).2 := by
+  unfold txDeleteC
+  exact ⟨fun h => (by cases h), rfl, rfl⟩
+
 set_option maxRecDepth 8000 in
 /-- REGRESSION WITNESS on the variant that records the undo entry of a `tx_update` row AFTER the row's
     modifications (`txUpdateCUndoLast` / `runCUndoLast`, not the code).  Engine with `max_btree_entries = 2`,
@@ -302,6 +360,17 @@ theorem rollback_refused_by_cap_witness :
     q (runC 1 c0 goesOn) 1 = some [[(0, [3, 5]), (1, [2, 5])], [(0, [3, 5]), (1, [2, 5])]] := by
   intro other goesOn q
   and_intros <;> decide
+
+/-- EVERY capped script from the empty engine — any statements of any number of transactions, refusals, rollbacks that
+    are themselves refused, index DDL, `batch_insert`: the keys of all in-memory b-trees never number more than the cap,
+    and for every table that exists the hypothesis `otherKeys + keyCount ≤ cap` of the theorems above holds.  (The cap is
+    a constant of the engine; `btree_index_add` is the only step that adds a key and it checks first.) -/
+theorem capped_runs_stay_within_the_cap (cap a b : Nat) (ops : List Op) :
+    let s := runC cap (init a b) ops
+    btCount s ≤ cap ∧ ∀ t T, s.tables t = some T → otherKeys s t + keyCount T.btreeE ≤ cap := by
+  intro s
+  have h : CapInv cap s := capInv_runC (capInv_init cap a b) ops
+  exact ⟨h.count, fun t T hT => capInv_split h hT⟩
 
 /-- EVERY state within the cap: `btree_index_add` of an entry whose key the tree holds, or while the engine holds
     fewer keys than `max_btree_entries`, is the unconditional `idxAdd` of `Model.lean` — the statements of the
